@@ -20,7 +20,21 @@ def check(rep, tier, rng):
     oos = t3.corpus_out_of_subset(n, rng)
     bases = [c["text"] for c in sup[:200]] + [c["text"] for c in oos[:200]] + t3.golden_inputs()
     mut = t3.corpus_mutations(4 * n, rng, bases)
-    cases = sup + oos + mut + [{"text": t, "kind": "golden"} for t in t3.golden_inputs()]
+    # typedef chains and cycles (the grammar accepts them) used as discriminant, field, element, optional and typedef target:
+    # every walk along typedef targets in the generator has to stop
+    cyc = []
+    for names in (["t"], ["a", "b"], ["a", "b", "c"], ["ping_t", "pong_t"]):
+        ring = "".join("typedef %s %s;" % (names[(i + 1) % len(names)], names[i]) for i in range(len(names)))
+        x = names[0]
+        cyc += [ring,
+                ring + "union u switch (%s k) { case 1: int v1; default: void; };" % x,
+                ring + "struct s { %s f1; %s f2<>; %s f3[2]; %s *f4; };" % (x, x, x, x),
+                ring + "typedef %s wrapped<3>; typedef %s fixed[2];" % (x, x),
+                ring + "union u switch (int k) { case 1: %s v1; default: %s v2; };" % (x, x)]
+    chain = "typedef int i1;" + "".join("typedef i%d i%d;" % (i, i + 1) for i in range(1, 9))
+    cyc += [chain + "union u switch (i9 k) { case 1: int v1; };", chain + "struct s { i9 f1; i9 f2<>; };",
+            "typedef opaque o1<>; typedef o1 o2; typedef o2 o3; struct s { o3 f; o3 g<>; };"]
+    cases = sup + oos + mut + [{"text": t, "kind": "golden"} for t in t3.golden_inputs()] + [{"text": t, "kind": "typedef-cycle"} for t in cyc]
     texts = [c["text"] for c in cases]
     res = t3.run_texts(texts)
     greqs = ["gen d " + t3.hx(t) for t in texts]
@@ -56,7 +70,7 @@ def check(rep, tier, rng):
     rep.cov.update({"evaluations": 2 * len(cases), "distinct_nontrivial": len(distinct), "input_kinds": kinds, "outcomes": outcomes,
                     "traces_validated_against_impl": len(cases) - len(tie_breaks),
                     "rule": "supported-subset specifications (2 layouts each), grammar-valid out-of-subset constructs (16 kinds), 1-2 token-level mutations "
-                            "of both and of the repository's golden inputs; each text through Ast::new (compared with the model's outcome and panic site) and "
+                            "of both and of the repository's golden inputs, typedef chains and cycles in every position (a request without an answer within 20 s is a violation); each text through Ast::new (compared with the model's outcome and panic site) and "
                             "Generator::generate; distinct = distinct (outcome class, generate class, construct kind, panic site)",
                     "samples": [{"text": c["text"][:300], "ast": i[:120], "generate": g[:60]} for c, (i, m), g in list(zip(cases, res, gen))[:: max(1, len(cases) // 6)]][:6]})
     if tie_breaks and nviol == 0:
